@@ -19,7 +19,7 @@ RULE = ("for every state reached by a generated history (both classes, both mode
 MIN = {"quick": {"rejected:no-trace": 20000, "continuation:same-observables": 5000},
        "thorough": {"rejected:no-trace": 400000, "continuation:same-observables": 100000}}
 REQUIRED_CELLS = {t: ("fault:add", "fault:addfrom", "fault:path", "fault:star", "fault:cycle", "fault:dn.path",
-                      "fault:t=None", "mode:accumulative", "mode:removal", "class:DynGraph", "class:DynDiGraph")
+                      "fault:t=None", "fault:dn.star", "fault:large-bunch", "mode:accumulative", "mode:removal", "class:DynGraph", "class:DynDiGraph")
                   for t in ("quick", "thorough")}
 
 
@@ -45,8 +45,10 @@ def faults_for(rng, m, directed, limit):
         a = runs(m.P[k])[-1][0]
         lo = min(m.ids()) - 1
         ts = list(range(lo, a))[-4:]
+        # vanishing times: none, inside, and exactly where the pair already owns a '-' event (end+1 of its runs)
+        ends = sorted(set(b + 1 for (_a, b) in runs(m.P[k])))
         for t in ts:
-            for e in (None, t + 1, a + 1, a + 3):
+            for e in [None, t + 1, a + 1, a + 3] + [x for x in ends if x > t][:3]:
                 for (x, y) in ((u, v),) if directed else ((u, v), (v, u)):
                     out.append(("add", x, y, t, e))
             # bulk helpers with the failing pair at every position
@@ -63,14 +65,22 @@ def faults_for(rng, m, directed, limit):
                 out.append(("cycle", [o1, u, v], t))
                 out.append(("cycle", [v, o1, u], t))       # failing element is the closing one
             out.append(("dn.star", [u, v, o1], t, None))
+            # a large bunch (new pairs before and after the failing known pair)
+            fresh = ["L%d" % i for i in range(22)]
+            big = [(fresh[i], fresh[i + 1]) for i in range(10)] + [(u, v)] + \
+                  [(fresh[i], fresh[i + 1]) for i in range(11, 21)]
+            out.append(("addfrom", big, t, None if t % 2 else t + 2))
             out.append(("dn.cycle", [o1, o2, v, u] if not directed else [o1, o2, u, v], t, None))
     out.append(("add", "g1", "g2", None, None))
     out.append(("add", nodes[0] if nodes else "g1", "g2", None, 5))
     out.append(("addfrom", [("g1", "g2")], None, None))
     out.append(("path", ["g1", "g2", "g3"], None))
+    out.append(("dn.star", ["g4", "g5", "g6"], None, None))
+    out.append(("dn.path", ["g7", nodes[0] if nodes else "g8"], None, None))
+    out.append(("dn.cycle", ["g9", "g10", "g11"], None, 4))
     if len(out) > limit:
-        keep = out[-4:]
-        out = rng.sample(out[:-4], limit - 4) + keep
+        keep = out[-7:]
+        out = rng.sample(out[:-7], limit - 7) + keep
     return out
 
 
@@ -141,6 +151,10 @@ def judge(ctx, dn, prog, m, directed, removal, fault):
         n_before = 0
         mm = m
     ctx.cell("fault:" + ("t=None" if els and els[0][2] is None else kind))
+    if len(els) > 16:
+        ctx.cell("fault:large-bunch")
+    if kind == "dn.star":
+        ctx.cell("fault:dn.star")
     ctx.cell("mode:" + ("removal" if removal else "accumulative"))
     ctx.cell("class:" + ("DynDiGraph" if directed else "DynGraph"))
     pre = preceding(fault)[:n_before] if kind != "add" else []
